@@ -13,6 +13,9 @@ search : oracle independent of the model: direct boolean selection on the full
          observable`, fresh twin object, global restore, `set_window(window())`,
          objects nested on the library's own arrays, power-of-two rescaled twins,
          shuffled anomalies, selected phases / months incl. wrapping and error cases
+round 3: the cache counter after every step (`cs`), `int(T / time_cycle)` against the source
+         expression evaluated by CPython (`ry`), objects loaded with Data.Load /
+         ClimateData.Load through an in-memory Dataset stand-in (`runreg`), huge time stamps
 """
 import contextlib
 import io
@@ -1109,8 +1112,11 @@ def run(ctx):
         "arbitrary eviction",
         "numpy.random.shuffle applies a permutation that depends only on the generator state and the "
         "length (the harness replays it on range(T) and sends the permutation to the model)",
-        "int(T / time_cycle) on floats equals floor(T / time_cycle) for the record lengths used "
-        "(T < 2^53 / time_cycle)",
+        "CPython's int / int true division returns the double nearest to the exact quotient "
+        "(modelled by rn53; that int(T / time_cycle) then equals T // time_cycle for T < 2^53 is the "
+        "theorem rangeYearsF_eq, and the model is compared with the source expression on every run)",
+        "the in-memory stand-in for netCDF4.Dataset used to drive Data.Load / ClimateData.Load "
+        "(variables[name][:], .long_name, close()); NumPy's C-order reshape (n_time, -1)",
     ]
     ctx.assumptions = [
         "coordinates and window bounds are float32-exact (NumPy 2 compares a float32 array with a "
